@@ -533,6 +533,11 @@ func (ri *reflectInspector) recursivelyRecordUsedForReflectImpl(t types.Type, vi
 		if obj.Pkg() == nil {
 			return
 		}
+		// The type arguments of an instantiated generic type are reachable
+		// via reflection too, e.g. through a field of type T.
+		for i := range t.TypeArgs().Len() {
+			ri.recursivelyRecordUsedForReflectImpl(t.TypeArgs().At(i), visited)
+		}
 		if ri.usedForReflect(obj) {
 			return // prevent endless recursion
 		}
